@@ -375,6 +375,41 @@ fn scenario(cx: &mut Ctx, rng: &mut Rng) {
                 std::hash::Hasher::write_u64(&mut bh, x); std::hash::Hasher::write(&mut bh, ts.as_bytes()); std::hash::Hasher::write_i64(&mut bh, -(a as i64));
                 std::hash::Hasher::write_u64(&mut sh, x); std::hash::Hasher::write(&mut sh, ts.as_bytes()); std::hash::Hasher::write_i64(&mut sh, -(a as i64));
                 same = same && std::hash::Hasher::finish(&bh) == std::hash::Hasher::finish(&sh);
+                // a hasher that treats every integer method in its own way (it records which method was
+                // called with what): a boxed one must reach the very same methods
+                #[derive(Default)]
+                struct Log(Vec<String>);
+                impl Hasher for Log {
+                    fn finish(&self) -> u64 { let mut d = DefaultHasher::new(); for e in &self.0 { d.write(e.as_bytes()); } d.finish() }
+                    fn write(&mut self, b: &[u8]) { self.0.push(format!("bytes:{:?}", b)); }
+                    fn write_u8(&mut self, i: u8) { self.0.push(format!("u8:{}", i)); }
+                    fn write_u16(&mut self, i: u16) { self.0.push(format!("u16:{}", i)); }
+                    fn write_u32(&mut self, i: u32) { self.0.push(format!("u32:{}", i)); }
+                    fn write_u64(&mut self, i: u64) { self.0.push(format!("u64:{}", i)); }
+                    fn write_u128(&mut self, i: u128) { self.0.push(format!("u128:{}", i)); }
+                    fn write_usize(&mut self, i: usize) { self.0.push(format!("usize:{}", i)); }
+                    fn write_i8(&mut self, i: i8) { self.0.push(format!("i8:{}", i)); }
+                    fn write_i16(&mut self, i: i16) { self.0.push(format!("i16:{}", i)); }
+                    fn write_i32(&mut self, i: i32) { self.0.push(format!("i32:{}", i)); }
+                    fn write_i64(&mut self, i: i64) { self.0.push(format!("i64:{}", i)); }
+                    fn write_i128(&mut self, i: i128) { self.0.push(format!("i128:{}", i)); }
+                    fn write_isize(&mut self, i: isize) { self.0.push(format!("isize:{}", i)); }
+                }
+                fn feed<H: Hasher>(h: &mut H, x: u64) {
+                    (x as u8).hash(h); (x as u16).hash(h); (x as u32).hash(h); x.hash(h); (x as u128).hash(h); (x as usize).hash(h);
+                    (x as i8).hash(h); (x as i16).hash(h); (x as i32).hash(h); (x as i64).hash(h); (x as i128).hash(h); (x as isize).hash(h);
+                    (x % 2 == 0).hash(h); 'é'.hash(h); "text".hash(h); [x, x + 1].hash(h); Some(x).hash(h); (x, "t").hash(h);
+                    h.write(&[1, 2, 3]);
+                }
+                let mut plain = Log::default();
+                feed(&mut plain, x);
+                let mut bl = BBox::new_in(Log::default(), cx.bump);
+                feed(&mut bl, x);
+                let mut sl = Box::new(Log::default());
+                feed(&mut sl, x);
+                let mut dl: BBox<dyn Hasher> = unsafe { let b = BBox::new_in(Log::default(), cx.bump); let raw = BBox::into_raw(b); BBox::from_raw(raw as *mut dyn Hasher) };
+                feed(&mut dl, x);
+                same = same && bl.0 == plain.0 && sl.0 == plain.0 && bl.finish() == plain.finish() && dl.finish() == plain.finish();
             }
             let it: BBox<std::ops::Range<u32>> = BBox::new_in(0..5u32, cx.bump);
             let its: Box<std::ops::Range<u32>> = Box::new(0..5u32);
